@@ -32,6 +32,7 @@
 -/
 import SoyVerif.Base.BLit
 import SoyVerif.Base.F64
+import SoyVerif.Base.Utf8
 import SoyVerif.Model.Ast
 import SoyVerif.Model.Value
 import SoyVerif.Model.Printer
@@ -42,6 +43,15 @@ namespace SoyVerif.Model.JsGen
 open SoyVerif SoyVerif.Model
 
 /-! ## output pieces -/
+
+/-- the mapping visitSoyFile applies to the file name (soyjs 086971f): a line terminator — LF, CR, U+2028, U+2029 —
+    becomes a space, so that the name stays inside the `//` comment -/
+def commentRune (r : Nat) : Nat := if r == 10 || r == 13 || r == 0x2028 || r == 0x2029 then 32 else r
+
+/-- `strings.Map(commentRune, name)`: the runes of the name as `range` yields them (a byte that is not UTF-8 is
+    U+FFFD), each image written back as UTF-8.  (strings.Map returns the string itself when nothing changes and no
+    byte is invalid — re-encoding a well-formed rune gives its bytes back, so that is the same string.) -/
+def commentName (s : Bytes) : Bytes := (Utf8.runes s).flatMap fun r => Utf8.encodeRune (commentRune r)
 
 /-- soyjs.ES6Identifier: every "." becomes "__" -/
 def es6Identifier : Bytes → Bytes
@@ -957,7 +967,7 @@ def walkTop : List Cmd → M Unit
 
 def visitSoyFile (f : SoyFile) : M Unit := do
   atOther
-  indentP; fx b!"// This file was automatically generated from "; emit (.comment f.name); fx b!"."; nl
+  indentP; fx b!"// This file was automatically generated from "; emit (.comment (commentName f.name)); fx b!"."; nl
   indentP; fx b!"// Please don't edit this file by hand."; nl
   indentP; nl
   walkTop sk o f.body
